@@ -125,11 +125,11 @@ def _filter_facts(it, node, gen, seq, R, m, n):
             st.spec = saved
         cr = _spec_cond(it, gen, rj)
         cs = _spec_cond(it, gen, sj)
-        it.S.add(z3.ForAll([j], z3.Implies(z3.And(0 <= j, j < m), cr)))
-        it.S.add((m >= 1) == z3.Exists([j], z3.And(0 <= j, j < n, cs)))
+        it.sadd(z3.ForAll([j], z3.Implies(z3.And(0 <= j, j < m), cr)))
+        it.sadd((m >= 1) == z3.Exists([j], z3.And(0 <= j, j < n, cs)))
         # an explicit witness keeps the solver from needing to instantiate the existential
         k = z3.Int(it.namer.fresh("wit"))
-        it.S.add(z3.Implies(m >= 1, z3.And(0 <= k, k < n, z3.substitute(cs, (j, k)))))
+        it.sadd(z3.Implies(m >= 1, z3.And(0 <= k, k < n, z3.substitute(cs, (j, k)))))
     except Unsupported:
         pass
 
